@@ -8,7 +8,7 @@ SPEC = os.path.join(core.VERIF, "specs", "LRU")
 DRIVER = os.path.join(core.VERIF, "harness", "overlay", "lru", "zz_verif_lru_test.go")
 PKG = os.path.join(core.REPO, "cache", "lru")      # module /repo/cache: build inside it
 
-READY = False
+READY = True
 PROPERTIES = ["C16"]
 
 MANIFEST = {
@@ -90,6 +90,9 @@ def configs(tier):
             cfg("c3x1k3", 3, 1, 2, "<<1,2>>", "{<<<<2,1>>,<<1,1>>>>}", ALL, poison=1, nk=3),
             cfg("c3x2", 3, 2, 2, "<<1,2>>", "{<<>>, <<<<1,1>>>>}", PGDL, poison=1, maxel=10),
             cfg("c3x2c3", 3, 2, 3, "<<1,2>>", "{<<<<2,2>>,<<1,1>>>>}", PGD, maxel=10),
+            cfg("c3x2k3", 3, 2, 2, "<<1,2>>", "{<<<<2,1>>,<<1,1>>>>}", PGD, nk=3, maxel=10),
+            cfg("c3x2all", 3, 2, 3, "<<1,2>>", "{<<>>, <<<<2,2>>,<<1,1>>>>}", ALL, poison=1, maxel=10),
+            cfg("c3x3", 3, 3, 2, "<<1,2>>", "{<<<<1,1>>>>}", '{"Put","Del"}', maxel=12),
         ]
     return [
         cfg("seq6", 1, 6, 2, "<<1,2,3>>", "{<<>>}", ALL, poison=1),
@@ -102,7 +105,7 @@ def configs(tier):
 FREE = {
     "quick": dict(traces=400, nt=3, ops=3, rounds=2, cap=2, sizes=[1, 2], nk=3, poison=True,
                   kinds=["Put", "Put", "Get", "Del", "Len", "Size"]),
-    "thorough": dict(traces=4000, nt=3, ops=4, rounds=3, cap=3, sizes=[1, 2, 3], nk=3, poison=True,
+    "thorough": dict(traces=12000, nt=3, ops=4, rounds=3, cap=3, sizes=[1, 2, 3], nk=3, poison=True,
                      kinds=["Put", "Put", "Get", "Del", "Len", "Size"]),
 }
 
